@@ -1,7 +1,11 @@
 import SigModel.Model.Bulk
 import Oracle.Util
-/- suite "bulk": bulk <line> <line> ...   line ::= <i|c|u|o>:<len>:<docOk 0/1>:<id>
-   → items=<c|f|t...> errors=<0|1> processed=<n> stored=<id,id,...> -/
+/- suite "bulk":     bulk T=<entry>,<entry>,... <line> <line> ...
+     entry ::= <go part>/<valid 0|1>:<real slot>:<storefail 0|1>     the request's table of index names (slot = position)
+     line  ::= <template>/<i|c|u|o>:<len>:<docOk 0|1>:<id>:<slot>
+   → items=<c|f|t...> errors=<0|1> processed=<n> stored=<real>:<slot>=<id,id,...>;...   (per batch the store took, sorted by real index then slot; ids in hand-over order)
+   suite "bulk_e2e": bulke2e T=... <line> ... [|| <line> ...]
+   → items=<...>[|<...>] stored=<real>=<id,...>;...   (per real index the documents found after the flush, ids ascending) -/
 namespace Oracle.C15
 open SigModel.Bulk Oracle
 
@@ -9,43 +13,87 @@ def parseLine (s0 : String) : Option Line :=
   -- token = <template index>/<abstract line>; the template index only matters to the Go side
   let s := match s0.splitOn "/" with | [_, a] => a | _ => s0
   match s.splitOn ":" with
-  | [k, l, d, i] =>
+  | [k, l, d, i, x] =>
     let kind := match k with | "i" => some Kind.index | "c" => some Kind.create | "u" => some Kind.update | "o" => some Kind.other | _ => none
-    match kind, l.toNat?, d.toNat?, i.toNat? with
-    | some k, some l, some d, some i => some { kind := k, len := l, docOk := d == 1, id := i }
-    | _, _, _, _ => none
+    match kind, l.toNat?, d.toNat?, i.toNat?, x.toNat? with
+    | some k, some l, some d, some i, some x => if d ≤ 1 then some { kind := k, len := l, docOk := d == 1, id := i, idx := x } else none
+    | _, _, _, _, _ => none
   | _ => none
 
-def showSt (s : St) : String :=
-  let items := String.join (s.items.map (fun | .created => "c" | .failed => "f" | .tooLarge => "t"))
-  s!"items={items} errors={if s.overallError then 1 else 0} processed={s.processed}"
+structure Entry where
+  valid : Bool
+  real  : Nat
+  fail  : Bool
+
+def parseEntry (s0 : String) : Option Entry :=
+  match s0.splitOn "/" with
+  | [_, a] =>
+    match a.splitOn ":" with
+    | [v, r, f] =>
+      match v.toNat?, r.toNat?, f.toNat? with
+      | some v, some r, some f => if v ≤ 1 ∧ f ≤ 1 then some { valid := v == 1, real := r, fail := f == 1 } else none
+      | _, _, _ => none
+    | _ => none
+  | _ => none
+
+def parseTable (s : String) : Option (List Entry) :=
+  if s.startsWith "T=" then ((s.drop 2).toString.splitOn ",").mapM parseEntry else none
+
+/-- the environment an index table stands for; a slot outside the table is an invalid name -/
+def envOf (t : List Entry) : Env :=
+  { valid := fun k => match t[k]? with | some e => e.valid | none => false
+    resolve := fun k => match t[k]? with | some e => e.real | none => k
+    store := fun i _ => match t[i]? with | some e => !e.fail | none => true }
+
+def showItems (s : St) : String :=
+  String.join (s.items.map (fun | .created => "c" | .failed => "f" | .tooLarge => "t"))
+
+def insertBy {α : Type} (lt : α → α → Bool) (x : α) : List α → List α
+  | [] => [x]
+  | y :: r => if lt x y then x :: y :: r else y :: insertBy lt x r
+
+def sortBy {α : Type} (lt : α → α → Bool) (l : List α) : List α := l.foldr (insertBy lt) []
+
+def commaNats (l : List Nat) : String := ",".intercalate (l.map toString)
+
+/-- the batches the store took: (real index, index name, document ids in hand-over order) -/
+def takenBatches (r : Resp) : List (Nat × Nat × List Nat) :=
+  r.calls.filterMap (fun c => match c.res with
+    | .stored real => some (real, c.idx, c.docs.map (·.2))
+    | _ => none)
+
+def showBulk (r : Resp) : String :=
+  let bs := sortBy (fun a b => a.1 < b.1 || (a.1 == b.1 && a.2.1 < b.2.1)) (takenBatches r)
+  let stored := ";".intercalate (bs.map (fun b => s!"{b.1}:{b.2.1}={commaNats b.2.2}"))
+  s!"items={showItems r.st} errors={if r.st.overallError then 1 else 0} processed={r.st.processed} stored={stored}"
+
+/-- per real index the ids (≠ 0: only the generator's documents carry a _vid) the store took, ascending, over all requests -/
+def showFound (rs : List Resp) : String :=
+  let all := rs.flatMap takenBatches
+  let reals := sortBy (· < ·) (all.map (·.1)).eraseDups
+  let per := reals.filterMap (fun real =>
+    let ids := sortBy (· < ·) (((all.filter (·.1 == real)).flatMap (·.2.2)).filter (· ≠ 0)).eraseDups
+    if ids.isEmpty then none else some s!"{real}={commaNats ids}")
+  ";".intercalate per
+
+def splitBodies (args : List String) : List (List String) :=
+  (args.foldl (fun (acc : List (List String)) a =>
+    if a == "||" then [] :: acc else match acc with | [] => [[a]] | h :: t => (h ++ [a]) :: t) [[]]).reverse
 
 def handle (cmd : String) (args : List String) : Option String :=
-  match cmd with
-  | "bulke2e" =>
-    if args.contains "||" then
+  match cmd, args with
+  | "bulke2e", t :: rest =>
+    match parseTable t, (splitBodies rest).mapM (fun b => b.mapM parseLine) with
+    | some tab, some bs =>
       -- concurrent requests: each body is handled independently; the stored set is the union
-      let bodies := (args.foldl (fun (acc : List (List String)) a =>
-        if a == "||" then [] :: acc else match acc with | [] => [[a]] | h :: t => (h ++ [a]) :: t) [[]]).reverse
-      match bodies.mapM (fun b => b.mapM parseLine) with
-      | none => some "bad-op"
-      | some bs =>
-        let sts := bs.map SigModel.Bulk.handle
-        let items := "|".intercalate (sts.map (fun st => String.join (st.items.map (fun | .created => "c" | .failed => "f" | .tooLarge => "t"))))
-        let vids := ((sts.flatMap (·.stored)).filter (· ≠ 0)).eraseDups
-        let sorted := vids.foldr (fun x acc => let (lo, hi) := acc.partition (· < x); lo ++ [x] ++ hi) []
-        some s!"items={items} stored={",".intercalate (sorted.map toString)}"
-    else some (match args.mapM parseLine with
-      | some ls =>
-        let st := SigModel.Bulk.handle ls
-        let items := String.join (st.items.map (fun | .created => "c" | .failed => "f" | .tooLarge => "t"))
-        -- documents are identified by their _vid; lines that are not documents of the generator (id 0) are never searchable
-        let vids := (st.stored.filter (· ≠ 0)).eraseDups
-        let sorted := vids.foldr (fun x acc => let (lo, hi) := acc.partition (· < x); lo ++ [x] ++ hi) []
-        s!"items={items} stored={",".intercalate (sorted.map toString)}"
-      | none => "bad-op")
-  | "bulk" => some (match args.mapM parseLine with
-      | some ls => showSt (SigModel.Bulk.handle ls)
-      | none => "bad-op")
-  | _ => none
+      let rs := bs.map (handleReq (envOf tab))
+      some s!"items={"|".intercalate (rs.map (fun r => showItems r.st))} stored={showFound rs}"
+    | _, _ => some "bad-op"
+  | "bulk", t :: rest =>
+    match parseTable t, rest.mapM parseLine with
+    | some tab, some ls => some (showBulk (handleReq (envOf tab) ls))
+    | _, _ => some "bad-op"
+  | "bulk", [] => some "bad-op"
+  | "bulke2e", [] => some "bad-op"
+  | _, _ => none
 end Oracle.C15
